@@ -16,12 +16,13 @@ def run(run):
     if not L.build(run):
         return
     quick = run.tier == "quick"
-    fams = [("corpus:corpus/C11/duplicate-entry-names.jsonl", 0, 0), ("c11", 1500 if quick else 20000, run.seed),
+    fams = [("corpus:corpus/C11/duplicate-entry-names.jsonl", 0, 0), ("corpus:corpus/C11/membership-multiset.jsonl", 0, 0), ("c11", 1500 if quick else 20000, run.seed),
             ("c11dup", 12 if quick else 60, run.seed + 1),
             ("c10", 200 if quick else 2000, run.seed + 2)]
     results, cover, summary, scripts, traces = L.run_families(run, fams)
     cnt = L.classify(run, "C11", results, scripts, traces)
-    sa, mism = L.check_a(run, ["-mode", "membership", "-len", 4])
+    sa, mism = L.check_a(run, ["-mode", "membership", "-len", 4], vm_stride=400)
+    L.vm_membership(run)
     for line in mism[:50]:
         run.violation("corr-membership:" + "/".join(t.split("=")[1] for t in line.split()[2:4]),
                       {"driver_line": line,
